@@ -343,7 +343,9 @@ void run(vf::Ctx &c) {
     streams[v].name = v == 0 ? "va" : "vb";
     provider.AddView(std::unique_ptr<sdkm::InstrumentSelector>(new sdkm::InstrumentSelector(itype, "c", "")),
                      std::unique_ptr<sdkm::MeterSelector>(new sdkm::MeterSelector("m", "", "")),
-                     std::unique_ptr<sdkm::View>(new sdkm::View(streams[v].name)));
+                     // the second view names the instrument type's own aggregation explicitly (kSum) instead of kDefault:
+                     // same statement, other code path (DefaultAggregation::CreateAggregation(type, descriptor, config))
+                     std::unique_ptr<sdkm::View>(v == 1 ? new sdkm::View(streams[v].name, "", "", sdkm::AggregationType::kSum) : new sdkm::View(streams[v].name)));
   }
   if (P.feat == F_METERS) { streams[S0].scope = "m2"; streams[S0].name = "c"; }
   // F_FILTER: which points reader 0 is allowed to see.
